@@ -44,13 +44,19 @@ def amuset_case(draw):
     npairs = draw(st.sampled_from([1, 1, 2, 3]))
     pairs = []
     for _ in range(npairs):
-        kind = draw(st.sampled_from(['lag', 'lag', 'subset']))
+        kind = draw(st.sampled_from(['lag', 'lag', 'subset', 'negative']))
         if kind == 'lag':
             lag = draw(st.integers(1, 3))
             n = draw(st.integers(2, m - lag))
             start = draw(st.integers(0, m - lag - n))
             xi = list(range(start, start + n))
             yi = [i + lag for i in xi]
+        elif kind == 'negative':
+            # a trailing window addressed from the end (ordinary NumPy index arrays): positions -n-lag .. -lag-1 and -n .. -1
+            lag = draw(st.integers(1, 3))
+            n = draw(st.integers(2, m - lag))
+            xi = list(range(-n - lag, -lag))
+            yi = list(range(-n, 0))
         else:
             n = draw(st.integers(2, m))
             xi = draw(st.lists(st.integers(0, m - 1), min_size=n, max_size=n, unique=True))
@@ -66,6 +72,8 @@ def amuset_case(draw):
 
 def reference(Psi, xi, yi):
     """-> (eigenvalues of the reduced matrix, K, U, s) or None if a guard band is hit"""
+    pos = np.arange(Psi.shape[1])
+    xi, yi = pos[np.asarray(xi)], pos[np.asarray(yi)]          # index arrays address snapshots the NumPy way (negative = from the end)
     Px, Py = Psi[:, xi], Psi[:, yi]
     U, s, Vh = np.linalg.svd(Px, full_matrices=False)
     ratio = s / s[0]
@@ -136,6 +144,8 @@ def body(c):
         evs, ets = [e], [t]
     if any(p[2] == 'subset' for p in pairs):
         lab.add('subset_indices')
+    if any(p[2] == 'negative' for p in pairs):
+        lab.add('negative_indices')
     if len(nmodes) >= 2:
         lab.add('multi_mode')
     if c.get('data_form', 'float') != 'float':
